@@ -295,6 +295,7 @@ class ConnectOne(Contract):
 
         fields["input_delays"] = delay_table("input_delays", src_side=False)
         fields["successors"] = delay_table("successors", src_side=True)
+        fields["successors_to_wait_for"] = delay_table("successors_to_wait_for", src_side=True)
         fields["persistent_inputs"] = nested("persistent_inputs", 3)
         fields["output_request"] = LZ.LDict(LM, f"{tag}.output_request", lambda it, key, nm: LZ.LList(LM, nm))
         fields["pulled_inputs"] = LZ.LDict(LM, f"{tag}.pulled_inputs", lambda it, key, nm: LZ.LSet(LM, nm))
@@ -442,4 +443,70 @@ def configure(sess):   # noqa: F811
     OutputsModel(sess)
 
 
-CONTRACTS = [ConnectOne()]
+class ConnectAsync(ConnectOne):
+    """World.connect_async_requests(src factory, dest factory): successors[dest] = successors_to_wait_for[dest]
+    = input_delays'[src] = connect_interval(src group, dest group) -- the zero delay of that shape, which is
+    not greater than any delay already recorded for the pair (so overwriting input_delays keeps the minimum)"""
+    target = WORLD + ".connect_async_requests"
+    property_ids = ["C16", "C10"]
+    variants = [{}]
+    shard_variants = False
+
+    def make_args(self, mk):
+        sess = mk.s
+        M, GM = sess.sched, sess.groups
+        a = M.alg
+        self._sess = sess
+        self._sg, self._dg = mk.const("src.group", GM.G), mk.const("dest.group", GM.G)
+        self._ssid, self._dsid = mk.const("src.sid", a.Str), mk.const("dest.sid", a.Str)
+        self._srcf = mk.obj("mosaik.scenario.ModelFactory", _group=self._sg, _sid=self._ssid)
+        self._destf = mk.obj("mosaik.scenario.ModelFactory", _group=self._dg, _sid=self._dsid)
+        self._use_cache = mk.bool("use_cache")
+        self._world = mk.obj(WORLD, use_cache=self._use_cache, entity_graph=LZ.NoOp("entity_graph"))
+        # ConnectOne.setup reads the sids from entity-like objects
+        self._src = SymObj(None, {"sid": self._ssid})
+        self._dest = SymObj(None, {"sid": self._dsid})
+        self._ts, self._weak, self._initial = 0, False, None
+        return {"self": self._world, "src": self._srcf, "dest": self._destf}
+
+    def requires(self, A):
+        GM = self._sess.groups
+        return And(GR.GroupPath().same_root(GM, self._sg, self._dg), Implies(self._ssid == self._dsid, self._sg == self._dg))
+
+    raises = {}
+    raise_post = None
+
+    def split_post(self, A, result):
+        from contracts.connect_spec import ops_on, entry
+        a = self._sess.sched.alg
+        log = self._p.ghost["log"]
+        calls = self._p.ghost.get("ci_calls", [])
+        out = {"one_connect_interval_call_without_shift": And(len(calls) == 1, *([calls[0]["src"].eq(self._sg), calls[0]["dest"].eq(self._dg),
+                                                                                    calls[0]["ts"] == 0, calls[0]["weak"] == 0] if calls else []))}
+        if not calls:
+            return out
+        d = calls[0]["d"]
+        src_sim = self._src_sim
+        su = ops_on(log, src_sim.fields["successors"], "set")
+        sw = ops_on(log, src_sim.fields["successors_to_wait_for"], "set")
+        dest_used = su[0][2] if su else None
+        idl = [x for s_ in (self._dest_sim, src_sim) for x in ops_on(log, s_.fields["input_delays"], "set")]
+        out["successors"] = And(len(su) == 1, su[0][3] is d if su else False)
+        out["successors_to_wait_for"] = And(len(sw) == 1, (sw[0][3] is d and sw[0][2] is dest_used) if sw else False)
+        out["input_delays"] = And(len(idl) == 1, (idl[0][3] is d and idl[0][2] is src_sim) if idl else False)
+        out["nothing_else"] = len(log) == 3
+        # the delay written is minimal among delays of that shape with non-negative tiers
+        old = z3.Const("any_delay", a.D)
+        vo, vd = DView(a, old), DView(a, d)
+        out["zero_delay_is_minimal"] = Implies(And(a.d_wf(old), a.d_nonneg(old), TTC.same_shape(vo, vd), a.dcut(old) == a.dcut(d)),
+                                               Not(TTC.code_lt(vo, vd)))
+        return out
+
+    def native_search(self, budget):
+        return iter(())
+
+    def native_call(self, m):
+        return True, "no native replay for connect_async_requests"
+
+
+CONTRACTS = [ConnectOne(), ConnectAsync()]
